@@ -483,7 +483,7 @@ partial def schema? (o : Oracle) : Sexp → Option Schema
 
 def issueS (i : Issue) : Sexp :=
   node "I" [mkStr i.code, mkStr i.path, mkStr i.dtype,
-    .list (i.params.map fun (k, v) => .list [mkStr k, mkStr v]), mkStr i.message]
+    .list ((sortParams i.params).map fun (k, v) => .list [mkStr k, mkStr v]), mkStr i.message]
 
 def insertSorted (k : String) (v : List Issue) : List (String × List Issue) → List (String × List Issue)
   | [] => [(k, v)]
